@@ -34,7 +34,7 @@ ASSUMPTIONS = [
     "documented errors = the exception classes of pyoak.legacy.error; an operation that raises anything else gives no verdict (counted)",
     "operations expected to be rejected that are accepted give no verdict (counted) and join the history",
 ]
-MUST_SEE = ["replace_with_own_child", "adopted_children_checked", "runtime_only_child_field_transform", "rule_replaces_children_of_its_copy", "receiver_below_falsy_parent", 
+MUST_SEE = ["wrapper_reusing_own_child", "replace_with_own_child", "adopted_children_checked", "runtime_only_child_field_transform", "rule_replaces_children_of_its_copy", "receiver_below_falsy_parent", 
     "rejected_ASTNodeDuplicateChildrenError", "rejected_ASTNodeParentCollisionError", "rejected_ASTNodeIDCollisionError", "rejected_ASTNodeRegistryCollisionError",
     "rejected_ASTNodeReplaceError", "rejected_ASTNodeReplaceWithError", "rejected_ASTTransformError", "failing_element_not_first", "frames_compared", "nested_failing_element", "two_collided_children",
 ]
@@ -108,8 +108,8 @@ def run_shard(ctx):
             kind = rng.choices(
                 ["dup_seq", "dup_two_fields", "parent_collision", "parent_collision_nested", "id_collision", "attach_collision", "attach_collision_nested",
                  "replace_keys", "replace_dup", "replace_parent_collision", "rw_has_parent", "rw_wrong_class", "rw_none_required", "rw_attach_fails",
-                 "transform_raises", "transform_removes_required", "transformer_raises", "rw_clone_of_attached", "parent_collision_two", "transform_runtime_children", "rw_own_child"],
-                [3, 3, 1, 1, 3, 3, 1, 3, 1, 1, 3, 3, 3, 1, 3, 3, 3, 2, 2, 2 if f"{P}Seq" in U.cls else 0, 2],
+                 "transform_raises", "transform_removes_required", "transformer_raises", "rw_clone_of_attached", "parent_collision_two", "transform_runtime_children", "rw_own_child", "rw_wrapper_reuses_child"],
+                [3, 3, 1, 1, 3, 3, 1, 3, 1, 1, 3, 3, 3, 1, 3, 3, 3, 2, 2, 2 if f"{P}Seq" in U.cls else 0, 2, 2],
             )[0]
             where = rng.choice(["first", "middle", "last"])
             if kind == "dup_seq":
@@ -224,6 +224,20 @@ def run_shard(ctx):
                 if x is None or x is n:
                     return None
                 return ("replace_with", "first", n, [x], lambda: n.replace_with(x))
+            if kind == "rw_wrapper_reuses_child":
+                # a detached wrapper that re-uses one of the receiver's own children (at another index) next to a node
+                # that still belongs to another parent: the wrapper is refused
+                a_, c_ = leaf(), leaf()
+                inner = U.cls[f"{P}Un"](child=leaf(), origin=NO)
+                block = U.cls[f"{P}List"](items=(a_, inner, c_), origin=NO)
+                top = U.cls[f"{P}List"](items=(block,), origin=NO)
+                x_ = leaf()
+                other = U.cls[f"{P}Un"](child=x_, origin=NO)
+                items = (inner, x_) if where != "last" else (x_, inner)
+                wrapper = U.cls[f"{P}List"](items=items, origin=NO, create_detached=True)
+                F.add(top, other, wrapper)
+                ctx.count("wrapper_reusing_own_child")
+                return ("replace_with_attach_fails", where, block, [wrapper], lambda: block.replace_with(wrapper))
             if kind == "rw_own_child":
                 # hoisting a node's own child into its place: the child has a parent (the receiver), so this is refused;
                 # here the receiver's own slot would not even accept the child's class
@@ -470,6 +484,10 @@ def run_shard(ctx):
                 # extent of the recorded mechanism: the attach of `new` walks its subtree in pre-order and stops at the
                 # first node whose id is taken; nodes that come later in that order were never reached
                 new_root = next((a for a in args if hasattr(a, "detached")), None)
+                # ... and it concerns the *detached* nodes of 'new' only: a node below 'new' that was attached before the
+                # call (e.g. a child of the receiver re-used by a wrapper) must come out exactly as it went in
+                if any(dd.get("obj") in arg_sub and not before["nodes"][dd["obj"]][0] for dd in diff if dd["node"] != "<registry>"):
+                    return generic + "|attached-node-below-new-changed", roles
                 if new_root is not None:
                     order = struct_subtree(U, new_root)
                     reg0 = before["registry"]
